@@ -288,6 +288,16 @@ def sequential_part(cs, log, ctx, hyruns, managers):
                 raise Violation("get_batch_raised",
                                 f"get_batch({n},{k},i) raised {e!r}", "sweep")
             check_partition(n, k, batches, "sweep", "sweep")
+            if cs.flip("reuse", 50):
+                # the caller reuses the arrays it was handed; a later call
+                # with the same arguments must not see that
+                for b in batches:
+                    if hasattr(b, "fill"):
+                        b.fill(-3)
+                ctx.hit("fault.caller_overwrites_returned_batch")
+                again = [hyruns.get_batch(n, k, i) for i in range(k)]
+                check_partition(n, k, again, "sweep after the caller "
+                                "overwrote earlier results", "sweep")
             bad = cs.choice("bad", [(n, n + 1 + cs.draw("over", 3), 0),
                                     (n, k, k), (n, k, -1),
                                     (n, k, k + cs.draw("beyond", 5))])
@@ -399,6 +409,7 @@ def run(cs, log, ctx):
             starts = [cs.draw(f"start{i}", 3000) for i in range(nbatch)]
             backoff = [10 + cs.draw(f"backoff{i}", 3000) for i in range(nbatch)]
             aspath = [cs.flip(f"aspath{i}", 50) for i in range(nbatch)]
+            scribble = [cs.flip(f"scribble{i}", 40) for i in range(nbatch)]
             bad_worker = cs.weighted("bad_worker", [(None, 4), (nbatch, 1),
                                                     (-1, 1)])
             ndup = cs.weighted("ndup", [(0, 3), (1, 2), (2, 1)]) \
@@ -593,7 +604,13 @@ def run(cs, log, ctx):
                     raise Violation("invalid_call_accepted",
                                     f"get_batch({n},{nbatch},{i}) returned "
                                     f"{short(list(ids))}", "batch")
+                raw = ids
                 ids = [int(x) for x in ids]
+                if hasattr(raw, "fill") and len(ids) and \
+                        scribble[i % len(scribble)]:
+                    # the caller owns the array it was given and may reuse it
+                    raw.fill(-7)
+                    ctx.hit("fault.caller_overwrites_returned_batch")
                 if ids != model_batch(n, nbatch, i):
                     raise Violation("batch_differs_from_model",
                                     f"get_batch({n},{nbatch},{i}) = {short(ids)}"
@@ -626,6 +643,10 @@ def run(cs, log, ctx):
                     raise Violation("sitebatch_rejected_valid",
                                     f"SiteBatch({nsites},{nbatch})[{i}]",
                                     "sites")
+                except Exception as e:
+                    raise Violation("sitebatch_raised",
+                                    f"SiteBatch({nsites},{nbatch})[{i}] raised "
+                                    f"{e!r}", "sites")
                 want = [sites[j] for j in model_batch(nsites, nbatch, i)] \
                     if nsites >= nbatch else None
                 if want is None:
@@ -638,7 +659,12 @@ def run(cs, log, ctx):
                                     f"{short(mine)} != {short(want)}", "sites")
                 j = cs.draw(f"w{i}.site", nsites) if a.inc == 0 and \
                     inc_label == 0 else (i * 7) % nsites
-                owner = sb.search(sites[j])
+                try:
+                    owner = sb.search(sites[j])
+                except Exception as e:
+                    raise Violation("sitebatch_raised",
+                                    f"SiteBatch({nsites},{nbatch}).search("
+                                    f"{sites[j]!r}) raised {e!r}", "sites")
                 wantowner = [b for b in range(nbatch)
                              if j in model_batch(nsites, nbatch, b)][0]
                 if owner != wantowner:
@@ -742,3 +768,8 @@ def run(cs, log, ctx):
         hyruns.reset_dict_keyname()
         if fs is not None:
             fs.uninstall()
+
+
+def warmup():
+    import pathlib, json  # noqa: F401,E401
+    from hydrodiy.io import hyruns  # noqa: F401
